@@ -214,8 +214,110 @@ def probe_attach_inside_callback(seed):
     return fails
 
 
+def probe_cancelled_sender(seed, cases=30):
+    """The task that drains the queue is *cancelled* (`task.cancel()`, a `wait_for` timeout) while one of its
+    callbacks is suspended. For the engine that is a callback failing with `CancelledError` (C04): the transition is
+    abandoned there. Whatever the engine does with it, events must not interleave afterwards: once the cancelled
+    `send` has returned, no callback of its event may begin any more, and the callbacks of the next event form one
+    uninterrupted block. Direct Spec on the implementation (cancellation is not a step of the C06 protocol model)."""
+    import asyncio
+    import random
+    import warnings
+    from statemachine import State, StateMachine
+    fails = []
+    rng = random.Random(f"{seed}:cancelled-sender")
+    groups = ["before", "exit", "on", "enter", "after"]
+    for k in range(cases):
+        slow = rng.choice(groups)                 # the group whose callback is suspended when the cancel arrives
+        yields = rng.randint(1, 4)
+        spin = rng.randint(0, 6)                  # loop iterations between the cancellation and the next send
+        how = rng.choice(["cancel", "wait_for"])
+        log = []
+
+        def mk(group):
+            async def cb(self, event=None):
+                log.append(("B", str(event), group))
+                if group == slow and str(event) == "go":
+                    for _ in range(yields):
+                        await asyncio.sleep(0)
+                log.append(("E", str(event), group))
+            return cb
+
+        with warnings.catch_warnings():
+            warnings.simplefilter("ignore")
+            a, b = State(initial=True), State()
+            ns = dict(a=a, b=b, go=a.to(b) | b.to(a), ping=a.to.itself(internal=True) | b.to.itself(internal=True),
+                      before_transition=mk("before"), on_exit_state=mk("exit"), on_transition=mk("on"),
+                      on_enter_state=mk("enter"), after_transition=mk("after"))
+            M = type(StateMachine)("CancelledSender", (StateMachine,), ns)
+
+        async def drive():
+            sm = M()
+            await sm.activate_initial_state()
+            del log[:]
+            if how == "cancel":
+                t = asyncio.ensure_future(sm.send("go"))
+                for _ in range(rng.randint(1, 3)):
+                    await asyncio.sleep(0)
+                t.cancel()
+                try:
+                    await t
+                except BaseException:
+                    pass
+            else:
+                try:
+                    await asyncio.wait_for(sm.send("go"), timeout=0)
+                except BaseException:
+                    pass
+            log.append(("RETURNED", "go", ""))
+            for _ in range(spin):
+                await asyncio.sleep(0)
+            try:
+                await sm.send("ping")
+            except BaseException as e:
+                log.append(("PING-FAILED", type(e).__name__, ""))
+            log.append(("RETURNED", "ping", ""))
+            for _ in range(8):
+                await asyncio.sleep(0)
+            return sm
+
+        try:
+            asyncio.run(drive())
+        except BaseException as e:
+            if isinstance(e, (KeyboardInterrupt, SystemExit)):
+                raise
+            fails.append(f"case {k} ({how}, suspended in `{slow}`): {type(e).__name__}: {e}")
+            continue
+        where = f"case {k} ({how}, suspended in `{slow}`, {yields} yields, {spin} spins)"
+        ret = log.index(("RETURNED", "go", ""))
+        late = [x for x in log[ret + 1:] if x[0] == "B" and x[1] == "go"]
+        started = any(x[0] == "B" and x[1] == "go" for x in log[:ret])
+        # (an awaitable cancelled before it ever ran leaves its event queued — it was put when `send` was called —
+        # and the next drain processes it, as one block, ahead of the next event: nothing wrong with that)
+        if late and started:
+            fails.append(f"{where}: callbacks of the cancelled event began after its send had returned: {late[:3]}")
+        open_cb = None
+        for x in log:
+            if x[0] == "B":
+                if open_cb is not None and open_cb[1] != x[1]:
+                    fails.append(f"{where}: callback {x} began while {open_cb} of another event was still running")
+                    break
+                open_cb = x
+            elif x[0] == "E":
+                open_cb = None
+            elif x[0] == "RETURNED":
+                open_cb = None      # (a cancelled callback never ends)
+        if ("PING-FAILED", "TransitionNotAllowed", "") in log or any(x[0] == "PING-FAILED" for x in log):
+            fails.append(f"{where}: the next event failed: {[x for x in log if x[0] == 'PING-FAILED']}")
+    return fails
+
+
 def run(ctx):
     lean_obligations(ctx)
+    pc = probe_cancelled_sender(ctx.seed)
+    ctx.coverage["cancelled_sender_cases"] = 30
+    if pc:
+        ctx.violation(ctx.write_replay("cancelled_sender.txt", "\n".join(pc) + "\n"), pc[0])
     pf = probe_attach_inside_callback(ctx.seed)
     ctx.coverage["attach_inside_callback_cases"] = 24
     if pf:
